@@ -2,8 +2,19 @@
 from . import rules_conc as conc
 from . import rules_effects as fx
 from . import rules_live as live
+from . import rules_flow as flow
 
 PROPERTIES = {
+    'C10': {
+        'rules': [flow.rule_flow_unsync, flow.rule_flow_admit_sums_unsync, flow.rule_flow_sync],
+        'explanation': 'Per-path traces of every function that adds / removes / replaces a map entry: the final value written to each '
+                       'counter is decomposed into a signed sum and must contain the removed entry\'s stored weight with sign - (and 1 with -), '
+                       'the admitted candidate\'s weight with + (and 1), -old +new for updates, 0 after clear; accumulators are checked '
+                       'component-wise at their callers; sync: the op-carried weights are used, every removed entry reaches the remove '
+                       'role, counters are published only by the maintenance run.',
+        'decides': 'every path that adds/removes a map entry adjusts both counters by that entry\'s weight with the right sign and origin',
+        'does_not_decide': 'the numeric equality itself (saturation, weigher determinism), quiescent multi-thread states',
+    },
     'C01': {
         'rules': [live.rule_guard_live_all],
         'explanation': 'Path-sensitive abstract interpretation of the 6 lookups (get / contains_key / Iter::next of both caches): on '
@@ -41,7 +52,7 @@ PROPERTIES = {
         'does_not_decide': "DashMap's iteration guarantees under concurrent writers",
     },
     'C03': {
-        'rules': [live.rule_miss_reasons],
+        'rules': [live.rule_miss_reasons, flow.rule_flow_unsync, flow.rule_flow_admit_sums_unsync, flow.rule_flow_sync],
         'explanation': 'Every miss path of the 6 lookups is explained by key-absent / iterator-exhausted or a true expiry / watermark '
                        'comparison on that entry.',
         'decides': 'lookups hide an existing entry only for expiry or invalidation',
